@@ -12,10 +12,12 @@ use std::path::Path;
 
 pub fn classes_of(prop: &str) -> &'static [&'static str] {
     match prop {
-        "C02" => &["durability", "later_session"],
+        "C02" => &["durability", "later_session", "vlog_read", "read"],
         "C03" => &["prefix"],
         "C07" => &["open", "probe", "reopen_differs", "panic", "read", "crash"],
-        "C11" => &["vlog_read"],
+        // the crash runs of C11 have the value log on: a store that does not open (again) leaves
+        // every separated value unreachable
+        "C11" => &["vlog_read", "open"],
         "C15" => &["failed_visible"],
         "C10" => &["history_after_crash", "open", "read", "vlog_read", "prefix", "durability"],
         _ => &[],
